@@ -75,5 +75,6 @@ TECHNIQUE = ('Coq model of the verdict computation across processes (Run.run) wi
              'predicate over the trace (Obs.c02_ok); theorems in P_C02.v; correspondence check on generated worlds')
 LEVEL_TEXT = ('The verdict of the real runner is compared with the model and with "anything bad happened" recomputed in Coq from the '
               'trace (bad tests that started, failed layer hooks, import errors) in every mode, with tests writing header look-alikes to '
-              'stdout/stderr; green worlds check that the verdict is not spuriously failed.')
+              'stdout/stderr; green worlds check that the verdict is not spuriously failed.'
+              ' Whole-run theorem (RunLedger.v): verdict failed iff import errors or a bad event in some process; reported lists are the exact ledger of those events.')
 LEVEL_NOTE = 'Crash points of children and report truncation are exercised in C07 (same parent code path).'
